@@ -420,6 +420,7 @@ def correspondence(ctx):
     replies = driver([model_line(*c) for c in cases])
     dist = dict(outcomes={}, discarded=0, with_failures=0, line_search=0, modified=0, reports={}, events=0,
                 fail_at_total_1=0, first_step_failure=0)
+    first_d = None
     for (cfg, rs, dflt, lss), rep in zip(cases, replies):
         ctx.evaluations += 1
         if rep.startswith('err'):
@@ -446,11 +447,17 @@ def correspondence(ctx):
         if d == 'discard':
             dist['discarded'] += 1
             continue
-        if d:
-            ctx.violation('model/implementation trace disagreement (%s); property predicates hold on this case'
-                          % d, dict(cfg=cfg, rs=rs, dflt=dflt, lss=lss,
-                                    correspondence='Model/NewtonRaphson.lean vs _solver_NR'), found_input=False)
-            return
+        if d and first_d is None:
+            # a broken correspondence is not by itself a violation: keep evaluating the property's own predicates on
+            # the remaining cases (and on a further search stream) looking for a concrete failing history
+            first_d = (d, dict(cfg=cfg, rs=rs, dflt=dflt, lss=lss, correspondence='Model/NewtonRaphson.lean vs _solver_NR'))
+    if first_d is not None:
+        if not search(ctx, ['trace disagreement: ' + first_d[0]]):
+            linear_problem(ctx)
+            if not ctx.violations:
+                ctx.violation('model/implementation trace disagreement (%s); the property predicates hold on every explored '
+                              'history' % first_d[0], first_d[1], found_input=False)
+        return
     linear_problem(ctx)
     ctx.cov['input_distribution'] = dist
     ctx.cov['traces_validated_against_impl'] = ctx.evaluations - dist['discarded']
